@@ -1,4 +1,4 @@
-ENTRY = {'modules': ['VirtioVerif.Props.C04', 'VirtioVerif.Props.C04Inv'],
+ENTRY = {'modules': ['VirtioVerif.Props.C04', 'VirtioVerif.Props.C04Inv', 'VirtioVerif.Props.C04Ledger'],
  'assumptions': ['caller contract of the unsafe fns (buffers stay valid and untouched until popped; pop_used '
                  "gets the same buffers as add) — the harness's structured stream honours it, the malformed "
                  "stream deliberately does not and is compared with the model's explicit panic outcomes",
@@ -22,4 +22,7 @@ ENTRY = {'modules': ['VirtioVerif.Props.C04', 'VirtioVerif.Props.C04Inv'],
                 'exactly the matching unshares. The ledger HAL (bounce buffers at distinct device addresses) '
                 'checks every unshare tuple against its share, double unshares, leaks after draining, that '
                 "the device only resolves live ranges, and that device-written bytes appear in the caller's "
-                'buffers exactly at pop.'}
+                'buffers exactly at pop. ledger_never_violated: along EVERY history the platform ledger '
+                '(fresh id per share, unshare must name a live id with the recorded range and direction) '
+                'never reports a violation - no double unshare, no unknown address, no mismatch - and the '
+                'live shares are exactly the buffers and indirect tables of the outstanding chains.'}
